@@ -140,8 +140,8 @@ text latin-1 → UTF-8, dialect tag -/
 def toResponse (d : Dialect) (s : Status) : Response :=
   { fields := mkMap (s.fields ++ framingFields d), players := s.players.map mkMap, objectives := s.objectives, version := d.ver }
 
-def noBsl (b : Bytes) : Prop := bsl ∉ b
-def noUsc (b : Bytes) : Prop := usc ∉ b
+abbrev noBsl (b : Bytes) : Prop := bsl ∉ b
+abbrev noUsc (b : Bytes) : Prop := usc ∉ b
 
 /-- well-formed status: what the game servers produce -/
 structure WfStatus (s : Status) : Prop where
